@@ -282,7 +282,7 @@ fn render_n(entries: &[NE], ns: &Ns) -> Rendered {
         text.push('\n');
         line += 1;
     }
-    Rendered { text, entry_line, posting_off }
+    Rendered { text, entry_line, posting_off, posting_span: Vec::new() }
 }
 
 fn ne_term(e: &NE) -> String {
